@@ -31,6 +31,9 @@ class Node:
 
 
 def fmt_num(x, dtype):
+    if dtype.startswith("complex"):
+        z = complex(x)
+        return "%r %r" % (z.real, z.imag)
     if dtype.startswith("float"):
         if isinstance(x, float):
             if math.isnan(x):
@@ -408,6 +411,9 @@ def gen_type(rng, depth, allow_option=True, allow_record=True, allow_union=False
 
 
 def gen_leaf(rng, dtype, small=True):
+    if dtype.startswith("complex"):
+        # small half-integers; equal real parts and exact ties are frequent on purpose
+        return complex(rng.randint(-2, 2) / 2.0, rng.randint(-1, 1) / 2.0)
     if dtype == "bool":
         return rng.random() < 0.5
     if dtype.startswith("float"):
@@ -473,6 +479,8 @@ def matches(v, T):
     if k == "num":
         if T[1] == "bool":
             return isinstance(v, bool)
+        if T[1].startswith("complex"):
+            return isinstance(v, complex)
         if T[1].startswith("float"):
             return isinstance(v, float)
         if not (isinstance(v, int) and not isinstance(v, bool)):
@@ -497,7 +505,7 @@ def matches(v, T):
     return False
 
 
-JUNK = {"bool": True, "float32": 77.5, "float64": 77.5}
+JUNK = {"bool": True, "float32": 77.5, "float64": 77.5, "complex64": complex(77.5, -77.5), "complex128": complex(77.5, -77.5)}
 
 
 def junk(dtype):
@@ -827,6 +835,8 @@ def junk_value(T):
     if k == "num":
         if T[1] == "bool":
             return True
+        if T[1].startswith("complex"):
+            return complex(77.5, -77.5)
         if T[1].startswith("float"):
             return 77.5
         return 99
